@@ -348,8 +348,53 @@ def r05_9(chk: Check) -> None:
     chk.floor("R05.9", 2)
 
 
+def r05_10(chk: Check) -> None:
+    """findvwLTE decides its two sentinels (1: too strong, 0: too weak) from the sign of the nucleation-temperature mismatch evaluated at one end of the
+    window.  Each such evaluation runs the 2x2 matching, which may fail to converge and records that in self.success; a sentinel drawn from an
+    unconverged matching is not a statement about the transition.  The flag must be consulted between the evaluation and the sentinel return -- at
+    BOTH ends (the upper end does; a contradiction between the two sites is what this rule looks for)."""
+    S = chk.src
+    fi = S.func(f"{HY}.findvwLTE")
+    chk.touch(fi.name)
+    g = CFG(fi.node)
+    cx = Ctx(S, fi)
+    evalfns = {f.node.name for f in S.modules[fi.module].funcs.values() if f.parent is fi and any(True for _ in calls_in(f.node, "matchDeflagOrHyb"))}
+    cnt = 0
+    evals = {}      # local name -> the statement `D = <evaluation function>(...)`
+    for d in g.nodes:
+        if isinstance(d, ast.Assign) and len(d.targets) == 1 and isinstance(d.targets[0], ast.Name) and isinstance(d.value, ast.Call) \
+                and isinstance(d.value.func, ast.Name) and d.value.func.id in evalfns:
+            evals[d.targets[0].id] = d
+    is_eval = lambda q: isinstance(q, ast.AST) and g.kind.get(q) != "def" and any(isinstance(c, ast.Call) and isinstance(c.func, ast.Name) and c.func.id in evalfns for c in ast.walk(q))
+    for t in g.nodes:
+        if g.kind.get(t) != "test":
+            continue
+        rt = cx.resolve(t, keep=set(evals))
+        ds = [a.id for c in ast.walk(rt) if isinstance(c, ast.Compare) and len(c.ops) == 1
+              for a, b_ in ((c.left, c.comparators[0]), (c.comparators[0], c.left))
+              if isinstance(a, ast.Name) and a.id in evals and isinstance(b_, ast.Constant) and b_.value == 0]
+        if not ds:
+            continue
+        # the sentinel this test decides: a `return 0 / 1` reached from exactly one of its branches without another test or evaluation in between
+        stop = lambda q: q is not t and (g.kind.get(q) == "test" or is_eval(q))
+        reach = {pol: {q for s0 in g.branch(t, pol) for q in g.reachable(s0, avoid=stop, include_start=True)
+                       if isinstance(q, ast.Return) and isinstance(q.value, ast.Constant) and q.value.value in (0, 1)} for pol in (True, False)}
+        sentinel = [q for q in (reach[True] ^ reach[False])]
+        if not sentinel:
+            continue
+        cnt += 1
+        nm, d = ds[0], evals[ds[0]]
+        consulted = reads_of(t, "self.success") or reads_of(rt, "self.success") or \
+            g.must_pass(d, sentinel[0], lambda q: q is not t and g.kind.get(q) == "test" and (reads_of(q, "self.success") or reads_of(cx.resolve(q), "self.success")))
+        chk.ob("R05.10", fi.where(t), f"findvwLTE returns the sentinel {sentinel[0].value.value} on the sign of `{nm}` only after consulting the convergence flag of the matching that "
+               "produced it", bool(consulted), f"`{n(t)[:60]}` does not read self.success", key=f"sentinel-flag|Hydrodynamics.findvwLTE|{sentinel[0].value.value}")
+    if cnt < 2:
+        raise AnchorMissing("findvwLTE: the two sentinel decisions not found")
+    chk.floor("R05.10", 2)
+
+
 def rules(chk: Check) -> None:
-    for grp in (r05_1, r05_23, r05_4, r05_5, r05_9):
+    for grp in (r05_1, r05_23, r05_4, r05_5, r05_9, r05_10):
         chk.stage(grp, chk)
     # R05.6: the matching handed back at the LTE velocity is the exact one: the re-evaluation of the upper end of the v+ bracket (cs^2 at T+ instead
     # of Tn) is entered on a sign change between the very points it then brackets, so it is not silently skipped in favour of the template fallback
